@@ -36,6 +36,15 @@ def run(ctx):
     g = ctx.graph
     mt = ctx.micro
     isa = spec.load("isa")
+    # the data-driven loops leave through ALU conditions (carry of the subtracting add, zero after a shift): the ALU
+    # functions have the documented shape (the rule of C08, shared, as in C01)
+    from . import C08
+    outer = getattr(chk, "prefix", "")
+    chk.prefix = outer + "alu/"
+    try:
+        C08.run(ctx)
+    finally:
+        chk.prefix = outer
     undefined = spec.expand_ranges(isa["undefined_first_bytes"]["ranges"])
     two_lo, two_hi = isa["two_byte"]["first_range"]
     two_first = set(range(two_lo, two_hi + 1))
